@@ -35,7 +35,7 @@ def model_runs(ctx, quick):
 
     def one(r):
         cfg, viol = r
-        return r, tlc.run("Decoder", cfg, expect_violation=viol is not None, workers=4, coverage=(cfg == "DecoderMC_quick.cfg"),
+        return r, tlc.run("Decoder", cfg, expect_violation=viol is not None, workers=2, coverage=(cfg == "DecoderMC_quick.cfg"),
                           tag="c11" + cfg[:-4], timeout=3000)
     with multiprocessing.pool.ThreadPool(len(runs)) as tp:
         outs = tp.map(one, runs)
@@ -55,7 +55,7 @@ def model_runs(ctx, quick):
 def generate(ctx, cfg):
     wd = tlc.workdir("c11gen")
     spool = os.path.join(wd, "beh.spool")
-    res = tlc.run("Decoder", cfg, spool=spool, tag="c11gen" + cfg[:-4], timeout=3000)
+    res = tlc.run("Decoder", cfg, spool=spool, workers=2, tag="c11gen" + cfg[:-4], timeout=3000)
     ctx.add_tlc(res, "G:" + cfg)
     hs = list(tlc.iter_spool(spool))
     tlc.cleanup(wd)
@@ -165,7 +165,7 @@ def run(ctx):
     per_class = 4 if quick else 10
     nother = 20 if quick else 80
     modes = D.isa_modes()
-    with mp.Pool(tlc.NCPU) as pool:
+    with mp.get_context("fork").Pool(tlc.NCPU, maxtasksperchild=1) as pool:     # one ISA per process
         pools = pool.map(c11.pool_task, [(i, m, ctx.seed, per_class, nother) for i, m in modes], chunksize=1)
     fresh = mp.get_context("fork").Pool(tlc.NCPU, maxtasksperchild=1)
     try:
